@@ -1330,3 +1330,14 @@ func init() {
 		Doc: "a call f(*x, **y) raises what expanding its operands raised: the error of every call made in (*vm.Vm).Call is handed on unchanged (the obligations of C02.R4 for that function); TypeError is raised precisely when Python raises it, not in place of an exception from the iterable",
 		Run: filteredRule(runC02R4, "C02.R4", func(k string) bool { return strings.Contains(k, "|(*vm.Vm).Call|") }, "(*vm.Vm).Call")})
 }
+
+// ---- C06.R13: parsing is a function of the input text ----
+//
+// The tree a source yields must not depend on what was parsed before it. The census of C18.R4 (package-level variables
+// of the pipeline packages that can hold mutable state) is reported under C06 for package parser: a pooled decode buffer,
+// a reused lexer, a memo of earlier inputs carries text or verdicts from one parse into the next.
+func init() {
+	register(&Rule{ID: "C06.R13", Prop: "C06", Floor: 3,
+		Doc: "parsing is a function of the input text: the package-level variables of package parser that can hold mutable state (pointer, interface, slice, map, func, struct containing one) are the reviewed immutable tables and hooks (the obligations of C18.R4 for package parser) — a pooled buffer, reused lexer or memo carries text or verdicts from one parse into the next",
+		Run: filteredRule(runPipelineVars, "C18.R4", func(k string) bool { return strings.Contains(k, "|parser.") }, "package parser")})
+}
